@@ -2,5 +2,5 @@ SPECIFICATION Spec
 CONSTANTS M = 4
  MaxK = 14
  Pool = {0,1,2,3,4,5,6,7,8,9}
-INVARIANTS EncIsGenerator FullMatrixAgrees VdmInverse DecodeOK
+INVARIANTS EncIsGenerator FullMatrixAgrees VdmInverse DecodeOK DiagonalPivotsSuffice
 CHECK_DEADLOCK FALSE
